@@ -119,7 +119,7 @@ static void run_once(const Json& plan,int fault_op,long fault_k,bool verbose,boo
   ex->fault_op=fault_op; ex->fault_k=fault_k; ex->plan_prop=plan["property"].as_str();
   AllocCfg cfg; const Json& a=plan["alloc"];
   cfg.reuse=(int)a["reuse"].as_int(REUSE_LIFO); cfg.residue=(int)a["residue"].as_int(RESIDUE_RANDOM); cfg.fill=(int)a["fill"].as_int(FILL_NANPAYLOAD);
-  cfg.c_reuse=REUSE_NONE; cfg.seed=(uint64_t)a["seed"].as_int(1);
+  cfg.c_reuse=(int)a["c_reuse"].as_int(REUSE_LIFO); cfg.seed=(uint64_t)a["seed"].as_int(1);     // GSL objects the library creates are ledgered too (S2)
   cfg.passthrough=0;
     alloc_run_begin(cfg);
   uint64_t bseed=(uint64_t)plan["buf_seed"].as_int(7);
@@ -161,7 +161,7 @@ struct VecEngine: Engine{
     Json p=Json::object();
     p["engine"]="vecsim"; p["property"]=prop; p["verif_seed"]=(long long)vseed; p["run"]=(long long)index;
     Json al=Json::object();
-    al["reuse"]=(int)r.weighted({20,50,15,15}); al["residue"]=(int)r.weighted({25,25,50}); al["fill"]=(int)r.weighted({70,15,15});
+    al["reuse"]=(int)r.weighted({20,50,15,15}); al["residue"]=(int)r.weighted({25,25,50}); al["fill"]=(int)r.weighted({70,15,15}); al["c_reuse"]=(int)r.weighted({10,60,15,15});
     al["seed"]=(long long)(stream_seed(rs,STREAM_ALLOC)>>2);
     p["alloc"]=al;
     Json bo=Json::array(); for(int b=0;b<NBUFS;b++) bo.push((int)r.below(2)); p["buf_off"]=bo;
